@@ -13,6 +13,7 @@ import (
 	"strings"
 
 	"seehuhn.de/go/pdf"
+	"seehuhn.de/go/pdf/graphics/extract"
 
 	"verif/harness/core"
 )
@@ -35,6 +36,15 @@ func readAllSig(data []byte, maxNum int) (sig string) {
 			if err != nil {
 				fmt.Fprintf(&sb, "get %d: %s\n", n, err)
 				continue
+			}
+			if d, ok := obj.(pdf.Dict); ok && d["Type"] == pdf.Name("Font") {
+				// font dictionaries are decoded as well (their decoders keep package-level state)
+				if _, err := pdf.Decode(pdf.NewCursor(r), pdf.NewReference(uint32(n), 0), extract.Dict); err != nil {
+					fmt.Fprintf(&sb, "font %d: %s\n", n, err)
+				}
+				if _, err := pdf.Decode(pdf.NewCursor(r), pdf.NewReference(uint32(n), 0), extract.Font); err != nil {
+					fmt.Fprintf(&sb, "font instance %d: %s\n", n, err)
+				}
 			}
 			if st, ok := obj.(*pdf.Stream); ok {
 				if rc, err := pdf.DecodeStream(r, nil, st); err != nil {
@@ -99,6 +109,27 @@ func repeatPhase(ctx *core.Ctx) error {
 			return err
 		}
 	}
+	// many different files, each naming things of its own (a composite font
+	// whose /Encoding and /UseCMap-like names occur in no other file): what a
+	// file names must not stay behind when its Reader is gone
+	{
+		a := newAsm("1.7")
+		a.obj(1, "<< /Type /Catalog /Pages 2 0 R >>")
+		a.obj(2, "<< /Type /Pages /Kids [] /Count 0 >>")
+		a.obj(3, "<< /Type /Font /Subtype /Type0 /BaseFont /Verif-Font /Encoding /"+strings.Repeat("N", 3000)+"0000000 /DescendantFonts [4 0 R] >>")
+		a.obj(4, "<< /Type /Font /Subtype /CIDFontType2 /BaseFont /Verif-Font /CIDSystemInfo << /Registry (Adobe) /Ordering (Identity) /Supplement 0 >> /FontDescriptor 5 0 R /DW 1000 >>")
+		a.obj(5, "<< /Type /FontDescriptor /FontName /Verif-Font /Flags 4 /FontBBox [0 0 1000 1000] /ItalicAngle 0 /Ascent 800 /Descent -200 /CapHeight 700 /StemV 80 >>")
+		var ents []xent
+		ents = append(ents, xent{num: 0, typ: 0})
+		for _, n := range []int{1, 2, 3, 4, 5} {
+			ents = append(ents, xent{num: n, typ: 1, off: a.offs[n]})
+		}
+		sx := a.xrefStream(9, ents, "/Root 1 0 R", false)
+		tmpl := a.finish(sx)
+		if err := repeatMany(ctx, tmpl, ctx.Pick(2500, 10000)); err != nil {
+			return err
+		}
+	}
 	ctx.Ev.Set("repeated_readings", map[string]any{"files": len(items), "repetitions_each": reps})
 	ctx.Logf("repeat: %d hostile files read %d times each in one process: answers stable, nothing retained", len(items), reps)
 	return nil
@@ -132,6 +163,36 @@ func repeatOne(ctx *core.Ctx, name string, data []byte, reps int) error {
 	} else if growth > 3<<20 {
 		what := fmt.Sprintf("%s read %d times in one process: %d bytes of heap stay in use after the calls returned (after a collection)", name, reps, growth)
 		ctx.Violation("repeat/heap-retained/"+class, what, replayCase{Kind: "repeat", Name: name, Data: data})
+	}
+	return nil
+}
+
+// repeatMany reads n variants of a template file (a seven-digit field of a
+// name differs) one after the other and judges what stays behind.
+func repeatMany(ctx *core.Ctx, tmpl []byte, n int) error {
+	at := bytes.Index(tmpl, []byte("0000000 /DescendantFonts"))
+	if at < 0 {
+		return core.Infra("repeat: template")
+	}
+	var ms runtime.MemStats
+	var base uint64
+	for i := 0; i < n; i++ {
+		data := append([]byte(nil), tmpl...)
+		copy(data[at:], fmt.Sprintf("%07d", i))
+		readAllSig(data, 6)
+		if i == 50 {
+			runtime.GC()
+			runtime.ReadMemStats(&ms)
+			base = ms.HeapAlloc
+		}
+	}
+	runtime.GC()
+	runtime.ReadMemStats(&ms)
+	growth := int64(ms.HeapAlloc) - int64(base)
+	ctx.Ev.Eval(n)
+	if growth > 3<<20 {
+		ctx.Violation("repeat/heap-retained/many-files", fmt.Sprintf("%d small files, each with a composite font naming an encoding of its own, opened, read and closed one after the other in one process: %d bytes of heap stay in use after a collection", n, growth),
+			replayCase{Kind: "repeat-many", Name: "many-files", Data: tmpl})
 	}
 	return nil
 }
